@@ -43,6 +43,11 @@ def value(r, cls):
         return ""       # the empty string (e.g. the null envelope sender) is a value like any other
     if cls == "plain" and r.random() < 0.1:
         return r.choice(["[SPAM]", "[]", "[a b]", "{x}", "(y)", "[é]", "[x", "y]", "#z", ";", "[[a]]"])   # look-alikes of list / block syntax
+    if cls == "plain" and r.random() < 0.12:
+        # words that real header names and folder names are made of — among them capitalised look-alikes of the factory's own
+        # keywords: a header called Notes, Size or Body is a header (only the exact lower-case keywords select another form)
+        return r.choice(["Subject", "Notes", "Notification-Type", "NOTICE-REF", "Nothing", "X-Not", "Size", "Body", "Exists", "Notexists", "True", "False",
+                         "Envelope", "Address", "Currentdate", "Header", "Anyof", "Date", "List-Id", "NOT", "Not"])
     while True:
         v = "".join(r.choice(VALUE_CLASSES[cls]) for _ in range(r.randint(1, 4)))
         if not v.startswith(('"', "'", ":", "not")) and v.strip() == v and v:
